@@ -124,6 +124,9 @@ main(int argc, char **argv)
 		}
 		vf_distinct("version_shape", "%04x c%04x-%04x s%04x-%04x kx%d", pv->version, cc.vmin, cc.vmax, sc.vmin, sc.vmax, pv->s->kx);
 		sc.keykind = keykind;
+		/* which implementations serve the record layer and the key exchange: each side draws its own set */
+		cc.impl_set = (int)vf_below(&r, 4); sc.impl_set = (int)vf_below(&r, 4);
+		vf_distinct("impl_sets", "%04x c%d s%d", pv->s->id, cc.impl_set, sc.impl_set);
 		vf_bytes(&r, cc.seed, 32);
 		vf_bytes(&r, sc.seed, 32);
 
